@@ -47,6 +47,13 @@ def recv_spec(name, tags, **P):
                      'obligations tagged %s vs RFC 6455 reference receiver' % (P['N'], P.get('cuts', 'one'), ','.join(tags)))
 
 
+def carry_specs(tags, L):
+    """a fragmented message (symbolic payload, every split) preceded and followed by complete messages of the OTHER kinds"""
+    before = ['810161', '8201ff', '8900', '01016180016a', '0201fe8001ff']       # text, binary, ping, fragmented text, fragmented binary
+    return [recv_spec('carry-over-binary', tags, family=dict(opcode=2, L=L, max_frags=2, before=before, after=['810162', '8201fd'])),
+            recv_spec('carry-over-text', tags, family=dict(opcode=1, L=L, max_frags=2, before=before, after=['810162', '8201fd']))]
+
+
 def c01(tier):
     tags = ['C01']
     if tier == 'quick':
@@ -54,7 +61,7 @@ def c01(tier):
                  recv_spec('recv-N6-nonfin-bytewise', tags, N=6, first_nonfin=True, no_rsv=True, cuts='bytewise'),
                  recv_spec('frag-text-L3', tags, family=dict(opcode=1, L=3, max_frags=3)),
                  recv_spec('frag-binary-L2-pong', tags, family=dict(opcode=2, L=2, max_frags=3, ctrl=10), cuts='bytewise'),
-                 recv_spec('length-forms', tags, long_frame=True, xval_stride=5)]
+                 recv_spec('length-forms', tags, long_frame=True, xval_stride=5)] + carry_specs(tags, 2)
     else:
         specs = [recv_spec('recv-N7', tags, N=7), recv_spec('recv-N9-nonfin', tags, N=9, first_nonfin=True, no_rsv=True),
                  recv_spec('recv-N7-nonfin-bytewise', tags, N=7, first_nonfin=True, no_rsv=True, cuts='bytewise'),
@@ -64,7 +71,7 @@ def c01(tier):
                  recv_spec('frag-binary-L3-pong', tags, family=dict(opcode=2, L=3, max_frags=3, ctrl=10), cuts='bytewise'),
                  recv_spec('length-forms', tags, long_frame=True, xval_stride=5),
                  recv_spec('length-forms-text-1000', tags + ['C05'], long_frame=True, long_opcode=1, cuts=[1000] * 70, xval_stride=5),
-                 recv_spec('length-forms-4096', tags, long_frame=True, cuts=[4096] * 20, xval_stride=5)]
+                 recv_spec('length-forms-4096', tags, long_frame=True, cuts=[4096] * 20, xval_stride=5)] + carry_specs(tags, 3)
     specs.append(Spec('frame-step', 'checks.frame', 'run_frame_step', dict(max_chunk=3 if tier == 'quick' else 5, k_max=1 if tier == 'quick' else 2,
                                                                             opcode_list=[2, 1] if tier == 'quick' else [2, 1, 0], xval_stride=11),
                       what='INDUCTIVE STEP on the payload-read state: announced length L symbolic (7/16/63-bit, every value at once), k<=1/2 bytes gathered, '
@@ -103,6 +110,7 @@ def c14(tier):
                  recv_spec('ping-length-sweep', tags + ['C01'], ping_sweep=True, suffix='810161', xval_stride=7),
                  recv_spec('frag-text-L2-ping1', tags + ['C01'], family=dict(opcode=1, L=2, max_frags=3, ctrl_len=1), cuts='bytewise'),
                  recv_spec('rejected-close-then-pings', tags, N=4, first_opcodes=[9], no_rsv=True, app_rejected_close_at_ready=True),
+                 recv_spec('pings-with-compression-negotiated', tags + ['C01'], N=4, first_opcodes=[9, 1], no_rsv=True, negotiate_compression=True),
                  recv_spec('recv-N4-writefault', tags, N=4, first_opcodes=[9, 1, 2, 0],
                            fault=dict(ops=['sendall'], kinds=['oserror', 'exception'], max=1, skip={'sendall': 1}))]
     else:
@@ -110,6 +118,7 @@ def c14(tier):
                  recv_spec('ping-length-sweep', tags + ['C01'], ping_sweep=True, suffix='810161', xval_stride=7),
                  recv_spec('ping-length-sweep-bytewise', tags + ['C01'], ping_sweep=True, suffix='8900', cuts='bytewise', xval_stride=7),
                  recv_spec('frag-binary-L2-ping2', tags + ['C01'], family=dict(opcode=2, L=2, max_frags=3, ctrl_len=2), cuts='bytewise'),
+                 recv_spec('pings-with-compression-negotiated', tags + ['C01'], N=5, first_opcodes=[9, 1], no_rsv=True, negotiate_compression=True),
                  recv_spec('recv-N5-writefault', tags, N=5, first_opcodes=[9, 1, 2, 0],
                            fault=dict(ops=['sendall'], kinds=['oserror', 'exception'], max=1, skip={'sendall': 1}))]
     return run_property('C14', tier, specs, 'model_checking', 'ping/pong', ENV_ASSUMPTIONS, RECV_FUNCS)
@@ -268,6 +277,12 @@ def c08(tier):
                   app=dict(actions=['close', 'send_text'], max_actions=2),
                   fault=dict(ops=['sendall'], kinds=['oserror'], max=1, skip={'sendall': 1})),
     ]
+    specs.append(life_spec('close-timeout-options', tags,
+                           'both close directions with connect(close_timeout=...) drawn from {None, 0, 0.0 (documented: disabled), 30.0}: the server answers '
+                           'without delay (no virtual time passes), so no value may cut the handshake short',
+                           server=dict(kind='grammar', K=2, alphabet=['text', 'close']),
+                           app=dict(actions=['close', 'send_text'], max_actions=1),
+                           connect_options=[{}, {'close_timeout': 0}, {'close_timeout': 0.0}, {'close_timeout': 30.0}]))
     if not q:
         specs.append(life_spec('close-raw-N3', tags, 'raw symbolic server bytes (N=3) with application close/send at any event',
                                server=dict(kind='raw', N=3), app=dict(actions=['close', 'send_text'], max_actions=2)))
@@ -293,11 +308,11 @@ def c07(tier):
                              kinds=['oserror', 'exception'], max=2),
                   app=dict(actions=['close'], max_actions=1), max_waits=40),
         life_spec('close-then-silence', tags,
-                  'application closes at a solver-chosen event (incl. before Ready), the server upgrades and then stays silent: '
-                  'close_timeout must end the iteration (virtual clock)',
-                  server=dict(kind='grammar', K=1, alphabet=['text']), end='silence', silent_waits=10 ** 6,
+                  'application closes at a solver-chosen event (incl. before Ready) and/or the server sends a Close; the server then stays silent '
+                  '(no EOF): close_timeout must end the iteration (virtual clock)',
+                  server=dict(kind='grammar', K=2, alphabet=['text', 'close']), end='silence', silent_waits=10 ** 6,
                   connect=dict(poll=1.0, close_timeout=3.0),
-                  app=dict(actions=['close', 'close_default'], max_actions=1, only_events=['connecting', 'connected', 'ready', 'text']),
+                  app=dict(actions=['close', 'close_default'], max_actions=1, only_events=['connecting', 'connected', 'ready', 'text', 'closing']),
                   max_waits=30),
         life_spec('close-write-fault-then-silence', tags,
                   'as close-then-silence, with a symbolic fault on any write after the upgrade request (the Close frame itself may fail to be written): '
@@ -365,7 +380,7 @@ def c09(tier):
                                fault=dict(ops=allops, kinds=['oserror', 'exception'], max=2),
                                app=dict(actions=['send_text', 'close'], max_actions=1)))
     return run_property('C09', tier, specs, 'model_checking', 'transport failures become events', ENV_ASSUMPTIONS + [
-        'a socket whose close()/shutdown() call was itself made to fail is not required to be closed',
+        'a socket whose close() call was itself made to fail (or whose shutdown() raised a non-socket exception) is not required to be closed',
         'faults inside ssl handshakes and proxy sockets are outside (C19 covers the proxy)'], LIFE_FUNCS)
 
 
@@ -386,6 +401,13 @@ def c13(tier):
                                server=dict(kind='grammar', K=2, alphabet=['text', 'ping']), connect=dict(poll=1e9), abandon_mechanism=mech,
                                record_selector=True, app=dict(actions=['abandon', 'send_text'], max_actions=2),
                                fault=dict(ops=['sendall'], kinds=['oserror', 'exception'], max=1, skip={'sendall': 1})))
+    for mech in ['break', 'gen.close', 'with']:
+        specs.append(life_spec('abandon-%s-shutdown-fails' % mech.replace('.', '-'), tags,
+                               'as above, and shutdown() of the abandoned socket raises a socket error (symbolic fault; the connection may be gone '
+                               'already): close() must still release the descriptor',
+                               server=dict(kind='grammar', K=2, alphabet=['text', 'ping', 'close']), connect=dict(poll=0.0), abandon_mechanism=mech,
+                               record_selector=True, app=dict(actions=['abandon'], max_actions=1),
+                               fault=dict(ops=['shutdown'], kinds=['oserror'], max=1)))
     return run_property('C13', tier, specs, 'model_checking', 'abandoning the loop releases the socket', ENV_ASSUMPTIONS + [
         'CPython reference counting finalises a dropped generator immediately (break/raise rely on it); other interpreters are outside'],
         LIFE_FUNCS)
@@ -653,6 +675,9 @@ def c12(tier):
         sched_spec('close-vs-loop', tags, [['close'], ['pong', 'auto_ping']], 2, W),
         sched_spec('server-close-vs-close', tags, [['server_close'], ['close']], 2, W),
         sched_spec('close-vs-close-then-send', tags, [['close'], ['close2', 'send_text']], 2, W + ' (a send after both close() calls returned)'),
+        sched_spec('closed-event-vs-send', tags, [['close', 'server_close'], ['send_text']], 2,
+                   W + ' (thread 1 closes and then processes the server\'s Close reply - the Closed event is handed to the application, a preemption point - '
+                       'while thread 2 sends)'),
     ]
     if not q:
         specs += [sched_spec('close-send-send', tags, [['close'], ['send_text'], ['send_binary']], 2, W),
